@@ -233,4 +233,22 @@ PROPS = {
                 "overlapping sessions, or late/foreign frames. Distinct = hash of the whole case.",
         "assumptions": COMMON_ASSUME + ["late frames are delivered between attempts, not while a new session on the same topic runs (the wire format has no session identifier)"],
     },
+    "C14": {
+        "module": "core", "pkg": "./checks", "level": "exploration",
+        "jobs": [
+            {"test": "TestC14", "quick": 25000, "thorough": 1400000, "shards_thorough": 14},
+            {"test": "TestC14DFS", "quick": 30000, "thorough": 200000, "shards_thorough": 5},
+        ],
+        "rule": "The real msg.Box under a cooperative scheduler (yield hook, build tag verif): 1..3 receiver threads (one per sender identity, 1..4 "
+                "messages each over 1..2 topics) and 1..2 send threads (1..2 Sends each) park at every yield point (outside the box's critical "
+                "sections) and at the harness callbacks; exactly one thread runs at a time, chosen by the rapid choice vector. TestC14DFS enumerates "
+                "ALL interleavings of the small configurations (1 receiver x 2 messages + 1 Send; 2 receivers x 1 message + 1 Send; thorough: 3 more) "
+                "by re-execution DFS. Oracle when all calls have returned, without a further Send: every message received on a topic that was sent "
+                "on was handed to the dispatcher exactly once, per (topic, sender) in arrival order, nothing invented. Non-trivial = a receive call "
+                "was inside storeOrForward while a Send on the same topic was in flight. Distinct = the interleaving (sequence of (thread, point)).",
+        "exhaustive_claim": False,
+        "exhaustive_parts": "TestC14DFS is exhaustive per listed configuration up to the stated execution bound, within the generator switch of known finding L18; TestC14 samples",
+        "assumptions": COMMON_ASSUME + ["interleavings at yield-point granularity (yield points sit at every lock boundary of msg.Box outside its critical sections)",
+                                         "known finding L18 excludes, by generator switch, receive calls inside the check-to-store window during a Send on the same topic; three probe interleavings replay it on every run"],
+    },
 }
